@@ -370,14 +370,16 @@ NoneOnlyWhenNothing == [][(call = "recv" /\ call' = "idle" /\ last' = "none") =>
 MsgIsNext == [][(last' = "msg" /\ Len(delivered') = Len(delivered) + 1)
                   => delivered' = SubSeq(Msgs(wire), 1, Len(delivered'))]_vars
 
-(* Progress, for a handler that keeps receiving (no fairness on Srv_Drop, Cli_Shut, Cli_StartFrame):
+(* Progress, for a handler that keeps receiving (no fairness on Srv_Drop, Srv_None, Cli_Shut, Cli_StartFrame):
    a Close that was sent completely is eventually answered and reported (or the handler gave up / failed);
    every complete message that was sent completely is eventually delivered. *)
 SentFrames == IF sentB = TotalB THEN wire ELSE SubSeq(wire, 1, Len(wire) - 1)
+\* The network eventually delivers what was written: since delivery is folded into the reads, this is STRONG
+\* fairness of the reads that need an arrival (a polling handler may see `nothing yet' any number of times,
+\* but not forever once the frame has been written).
 Fairness ==
   /\ WF_vars(Cli_Piece)
-  /\ WF_vars(Srv_CallRecv) /\ WF_vars(Srv_Frame) /\ WF_vars(Srv_None) /\ WF_vars(Srv_Eof) /\ WF_vars(Srv_Send)
-  /\ WF_vars(Srv_Garbage)
+  /\ WF_vars(Srv_CallRecv) /\ SF_vars(Srv_Frame) /\ SF_vars(Srv_Eof) /\ WF_vars(Srv_Send) /\ WF_vars(Srv_Garbage)
 CloseAnswered == HasClose(SentFrames) ~> (closed \/ dropped \/ failed)
 AllDeliveredUpTo(K) == \A k \in 1..K : (Len(Msgs(SentFrames)) >= k) ~> (Len(delivered) >= k \/ dropped \/ failed)
 =============================================================================
